@@ -29,8 +29,8 @@ CFG = dict(
          "(transport write fails) / late (replies after completion, unread messages then cancel), 1..3 in flight, some closed by a read "
          "failure, with and without stats handler; registry size (verif accessor), pending calls and goroutine census compared with the "
          "model after EVERY action and judged by the bound/idle predicates; (b) one connection real client - real server, 10^3 (thorough "
-         "10^5) RPCs of the four kinds (unary, bidi, client-stream, server-stream) x the outcomes ok / error status / cancel / deadline / server reset / failed open / SendMsg whose transport write fails on a healthy connection with one of five error values (plain, wrapped context.DeadlineExceeded, wrapped context.Canceled, io.EOF, a net-style timeout) / handler aborting while the client still sends (late zero-length message, no CloseSend) / NewStream cancelled at once, the opener and the reset reaching the server's read loop back to back (the stream's context may be over before its handler goroutine has run), <= 32 in flight, gated handlers, "
-         "virtual-time deadlines; (c) TestC14SendFail (60 cases): real client - real server, one stream, a SendMsg whose transport write fails with one of the five error values, the sender optionally held at the yield point cs.teardown.mid between the two steps of its teardown until the stream's loop goroutine has ended (D-14f, fixed in /repo 029d2b2), the caller drops the stream or calls RecvMsg: the server registry must be empty at the next quiescent point; client registry size, stream-loop census, RPCs in flight AND the server connection's stream registry sampled at every quiescent point; the history is emitted as records of <= 2000 samples (every sample is judged on its own)",
+         "10^5) RPCs of the four kinds (unary, bidi, client-stream, server-stream) x the outcomes ok / error status / cancel / deadline / server reset / failed open / SendMsg whose transport write fails on a healthy connection with one of five error values (plain, wrapped context.DeadlineExceeded, wrapped context.Canceled, io.EOF, a net-style timeout) / handler aborting while the client still sends (late zero-length message, no CloseSend) / bigmsg: one request, one LARGE response whose size on the wire sits at a round binary limit (64 KiB, 1 MiB, 4 MiB, 16 MiB: -1, exact, +1; 5 MiB; sizes are length tokens), the handler then waits for the end of the RPC, the caller takes the message and cancels / NewStream cancelled at once, the opener and the reset reaching the server's read loop back to back (the stream's context may be over before its handler goroutine has run), <= 32 in flight, gated handlers, "
+         "virtual-time deadlines; caller metadata is a dimension of every open (lock-step: all of clientrig.go mdKinds; long history: one RPC in two carries grpc-trace-id / Grpc-Status / key with a space / upper case / non-ASCII / empty key / NUL / control bytes / -bin / pseudo-header / 17 keys) + 54 lock-step cases 'open with such metadata, then the call ends by cancel / reply / read failure: registry idle'; (c) TestC14SendFail (60 cases): real client - real server, one stream, a SendMsg whose transport write fails with one of the five error values, the sender optionally held at the yield point cs.teardown.mid between the two steps of its teardown until the stream's loop goroutine has ended (D-14f, fixed in /repo 029d2b2), the caller drops the stream or calls RecvMsg: the server registry must be empty at the next quiescent point; client registry size, stream-loop census, RPCs in flight AND the server connection's stream registry sampled at every quiescent point; the history is emitted as records of <= 2000 samples (every sample is judged on its own)",
     assumptions=["payloads, metadata and methods are opaque tokens in the model",
                  "transport writes succeed or fail at once (a Write that blocks for ever without honouring its context is outside the hypothesis)",
                  "quiescence = testing/synctest's durable blocking; goroutine roles are read from runtime.Stack frames",
